@@ -26,8 +26,8 @@ func h(s string) string { x := sha256.Sum256([]byte(s)); return hex.EncodeToStri
 
 type Stats struct {
 	Paths, Lines, Replicas int
-	ByType               map[string]int
-	Local                int // disagreements seen by the recorder itself (the verdict comes from TLC)
+	ByType                 map[string]int
+	Local                  int // disagreements seen by the recorder itself (the verdict comes from TLC)
 }
 
 // Run executes nPaths random paths of length <= maxLen on k fresh replicas each.
